@@ -422,6 +422,16 @@ def run_case(case):
         p = os.path.join(td, "result.h5")
         hp.save(p, res)
         r2 = hp.load(p)
+        # a name without extension means the same file for save and load -- also when an OLDER result lies next to it under the full name
+        other = locals().get("res_rb")
+        if other is not None:
+            hp.save(os.path.join(td, "run8.h5"), other)
+        try:
+            hp.save(os.path.join(td, "run8"), res)
+            back8 = hp.load(os.path.join(td, "run8"))
+            flags["extensionless_name_round_trips"] = bool(back8.parameters == res.parameters)
+        except Exception:
+            flags["extensionless_name_round_trips"] = False
         flags["reload_parameters"] = bool(r2.parameters == res.parameters)
         flags["reload_model"] = bool(r2.model == res.model and list(r2.model.parameters.keys()) == names)
         flags["reload_strategy_class"] = bool(type(r2.strategy) is type(res.strategy))
